@@ -96,11 +96,19 @@ static void run_one(const Plan &p, const gen::Csr &A0, const std::vector<double>
             } else {
                 // zero-copy adapter: the library must neither copy nor free the user's arrays
                 std::vector<ptrdiff_t> ptr(A.ptr), col(A.col); std::vector<double> val(A.val);
+                long variant = p.get("vseed") & 3;
+                std::vector<int> iptr(ptr.begin(), ptr.end()), icol(col.begin(), col.end());
                 auto Z = amgcl::adapter::zero_copy((size_t)n, ptr.data(), col.data(), val.data());
-                RtSolver S(Z, prm);        // shared_ptr overload: the hierarchy really works on the user's arrays
+                auto Zd = amgcl::adapter::zero_copy_direct((size_t)n, ptr.data(), col.data(), val.data());
+                auto Zi = amgcl::adapter::zero_copy_direct((size_t)n, iptr.data(), icol.data(), val.data());       // int indices: a view the hierarchy copies from
+                // shared_ptr overload: the hierarchy really works on the user's arrays; the int view goes through the copying constructor
+                std::unique_ptr<RtSolver> Sp(variant <= 1 ? new RtSolver(Z, prm) : variant == 2 ? new RtSolver(Zd, prm) : new RtSolver(*Zi, prm));
+                RtSolver &S = *Sp;
                 std::ostringstream os; os << S.precond(); o.text = os.str();
                 S.precond().apply(rhs, u);
                 std::tie(it, res) = S(rhs, x);
+                Sp.reset(); Z.reset(); Zd.reset(); Zi.reset();      // the views must not free what they borrowed (ledger / ASan see a double delete)
+                if (iptr.size() != ptr.size() || !std::equal(iptr.begin(), iptr.end(), ptr.begin()) || !std::equal(icol.begin(), icol.end(), col.begin())) o.vals.push_back(-1);
                 o.vals.push_back((double)vec_digest(val) * 0 + (ptr == A.ptr && col == A.col && val == A.val ? 1 : 0));
             }
             o.vals.insert(o.vals.end(), u.begin(), u.end());
